@@ -394,8 +394,8 @@ pub fn make_case(rng: &mut Rng, proj: &Project, k: usize) -> Option<Case> {
     let schema_ix = SchemaIx::new(&merge_extensions(&proj.schema_model));
     let mut touched: BTreeSet<String> = BTreeSet::new();
     for _ in 0..k {
-        let which = rng.below(5);
-        if proj.schema_is_json && matches!(which, 0 | 2) {
+        let which = rng.below(6);
+        if proj.schema_is_json && matches!(which, 0 | 2 | 5) {
             continue; // the SDL fault injectors do not apply to an introspection result
         }
         match which {
@@ -492,6 +492,33 @@ pub fn make_case(rng: &mut Rng, proj: &Project, k: usize) -> Option<Case> {
                 touched.insert(p.clone());
                 faults.push(FaultRec { stage: Stage::OpCheck, file: p.clone(), label: format!("{}|{}", f.rule, f.label) });
             }
+            5 => {
+                // a fault that only a plugin's schema check reports: the model plugin is configured (alone, or with the
+                // other built-in plugin before or after it) and one schema file misuses @model
+                if faults.iter().any(|f| f.stage == Stage::SchemaCheck) {
+                    continue;
+                }
+                let p = proj.schema_paths[rng.below(proj.schema_paths.len())].clone();
+                if touched.contains(&p) || files.iter().any(|(_, t)| t.contains("ZzPluginFault")) {
+                    continue;
+                }
+                let (text, label) = *rng.pick(&[
+                    ("type ZzPluginFault @model { id: ID }", "model-type-argument-missing"),
+                    ("type ZzPluginFault @model(type: null) { id: ID }", "model-type-argument-null"),
+                    ("type ZzPluginFault @model(type: \"string\") { id: ID @model }", "model-on-field-of-modelled-object"),
+                    ("type ZzPluginFault { id: ID @model(type: \"string\") }", "model-type-argument-on-field"),
+                    ("interface ZzPluginFault { id: ID @model }", "model-on-interface-field"),
+                ]);
+                let sets: Vec<&&[&str]> = crate::genproj::PLUGIN_SETS.iter().filter(|s| s.contains(&"nitrogql:model-plugin")).collect();
+                let set = **rng.pick(&sets);
+                if !crate::genproj::add_plugins(&mut files, set) {
+                    continue;
+                }
+                let t = files.iter_mut().find(|(fp, _)| *fp == p)?;
+                t.1 = format!("{}\n{text}\n", t.1.trim_end());
+                touched.insert(p.clone());
+                faults.push(FaultRec { stage: Stage::SchemaCheck, file: p, label: format!("plugin|{label}|plugins={}", set.len()) });
+            }
             _ => {
                 let p = proj.op_paths[rng.below(proj.op_paths.len())].clone();
                 if touched.contains(&p) {
@@ -567,6 +594,11 @@ pub fn run(ctx: &Ctx, rep: &mut Report) {
         rep.count(&format!("runs|format={}|faults={}", case.format, case.faults.len()));
         for f in &case.faults {
             rep.count(&format!("fault|{:?}", f.stage));
+            if f.label.starts_with("plugin|") {
+                rep.count("fault|SchemaCheck|reported-by-the-model-plugin-only");
+            } else if f.label.contains("built-in-scalar-declared-again") {
+                rep.count("fault|SchemaCheck|built-in-scalar-declared-again");
+            }
         }
         rep.nontrivial(&format!("{:?}{:?}{:?}", case.files, case.commands, case.format));
         if case_n == 0 {
